@@ -268,6 +268,52 @@ pub fn sign_chain_same_instance(h: HashId, sk: &[u8], msgs: &[Vec<u8>], aux: &[O
     })
 }
 
+/// A long-lived, type-erased `SigningKey` object (whatever private state the object carries
+/// besides its bytes lives as long as this value).
+pub trait KeyObjT: Send {
+    fn sign_obj(&mut self, msg: &[u8], aux: Option<&mut AuxBuf>) -> Out<Vec<u8>>;
+    fn bytes(&self) -> Vec<u8>;
+    /// overwrite the key bytes in place through `as_mut_slice` (the object itself is kept)
+    fn load(&mut self, bytes: &[u8]) -> bool;
+    fn lifetime(&self) -> Out<u64>;
+}
+
+impl<H: hbs_lms::HashChain + 'static> KeyObjT for SigningKey<H> {
+    fn sign_obj(&mut self, msg: &[u8], aux: Option<&mut AuxBuf>) -> Out<Vec<u8>> {
+        guard(|| {
+            let r = match aux {
+                Some(a) => {
+                    let l = a.len;
+                    let mut slice: &mut [u8] = &mut a.data[..l];
+                    let r = self.try_sign_with_aux(msg, Some(&mut slice));
+                    let nl = slice.len();
+                    a.len = nl;
+                    r
+                }
+                None => SignerMut::try_sign(self, msg),
+            };
+            r.map(|s| s.as_ref().to_vec()).map_err(|_| ())
+        })
+    }
+    fn bytes(&self) -> Vec<u8> {
+        self.as_slice().to_vec()
+    }
+    fn load(&mut self, bytes: &[u8]) -> bool {
+        if self.as_slice().len() != bytes.len() {
+            return false;
+        }
+        self.as_mut_slice().copy_from_slice(bytes);
+        true
+    }
+    fn lifetime(&self) -> Out<u64> {
+        guard(|| self.get_lifetime().map_err(|_| ()))
+    }
+}
+
+pub fn key_object(h: HashId, sk: &[u8]) -> Option<Box<dyn KeyObjT>> {
+    with_hash!(h, H => SigningKey::<H>::from_bytes(sk).ok().map(|k| Box::new(k) as Box<dyn KeyObjT>))
+}
+
 #[derive(Clone, Copy, Debug, PartialEq, Eq)]
 pub enum VerifyEntry {
     /// hbs_lms::verify::<H>(msg, sig, pk)
